@@ -20,6 +20,15 @@ def _radix_ok(t, radix):
     return False
 
 
+def _tri(run, ok, witness, rule, f, role, line, good, bad, **kw):
+    """ok -> discharged; a positive witness of deviation -> refuted; a shape that is merely not recognised -> undecided"""
+    if ok:
+        return run.ok(rule, f, role, line, good, **{k: v for k, v in kw.items() if k != 'inputs'})
+    if witness:
+        return run.refute(rule, f, role, line, bad, **kw)
+    return run.undecided(rule, f, role, line, 'construct not in a recognised form (%s)' % good)
+
+
 def r_conv(ctx):
     run = ctx.run
     run.rule('R-CONV', "for bit_to_number / dna_to_number (string and integer path): accumulation acc*R + d over the "
@@ -96,11 +105,14 @@ def r_conv(ctx):
                                                    and not any(is_call(x, 'builtins.reversed') or
                                                                (x[0] == 'sub' and x[2] == ('slice', NONE, NONE, ('c', -1)))
                                                                for x in walk_term(src)))
-            run.check(fwd, 'R-CONV', f, '%s:forward-order' % arm, nd.lineno, 'most significant symbol first',
+            rev = any(is_call(x, 'builtins.reversed') or (x[0] == 'sub' and x[2] == ('slice', NONE, NONE, ('c', -1)))
+                      for x in walk_term(src))
+            fwd = not rev and any(x == ('v', seqparam, 'P') for x in walk_term(src))
+            _tri(run, fwd, rev, 'R-CONV', f, '%s:forward-order' % arm, nd.lineno, 'most significant symbol first',
                       '%s (%s path) iterates %s: the sequence must be accumulated in forward order' % (name, arm, show(src)[:60]),
                       inputs='every non-palindromic input')
             # accumulation
-            ok, why = False, 'no accumulation found'
+            ok, why, wit = False, 'no accumulation found', False
             for p, k in ctx.body_paths(f, nd.id):
                 if k != 'back':
                     continue
@@ -114,8 +126,8 @@ def r_conv(ctx):
                             if a[0] == 'bin' and a[1] == '*' and a[2][0] == 'v' and a[2][1] == e.name and _radix_ok(a[3], radix) \
                                     and b[0] == 'iter':
                                 ok = True
-                            elif a[0] == 'bin' and a[1] == '*' and a[2][0] == 'v' and a[2][1] == e.name:
-                                why = 'integer path multiplies by %s, radix is %d' % (show(a[3]), radix)
+                            elif a[0] == 'bin' and a[1] == '*' and a[2][0] == 'v' and a[2][1] == e.name and a[3][0] == 'c':
+                                why, wit = 'integer path multiplies by %s, radix is %d' % (show(a[3]), radix), True
                     if arm == 'string' and call_name(t) and call_name(t).endswith('.calculus_addition'):
                         num, base = call_arg(t, 0, 'number'), call_arg(t, 1, 'base')
                         if num is not None and call_name(num) and call_name(num).endswith('.calculus_multiplication'):
@@ -124,9 +136,9 @@ def r_conv(ctx):
                             if _radix_ok(mb, radix) and mn[0] == 'v' and mn[1] == e.name and is_call(base, 'builtins.str') \
                                     and base[2] and base[2][0][0] == 'iter':
                                 ok = True
-                            else:
-                                why = 'string path computes %s' % show(t)[:100]
-            run.check(ok, 'R-CONV', f, '%s:acc*R+d' % arm, nd.lineno, 'acc <- acc * %d + digit' % radix,
+                            elif mb is not None and mb[0] == 'c' and not _radix_ok(mb, radix):
+                                why, wit = 'string path multiplies by %s, radix is %d' % (show(mb), radix), True
+            _tri(run, ok, wit and not ok, 'R-CONV', f, '%s:acc*R+d' % arm, nd.lineno, 'acc <- acc * %d + digit' % radix,
                       '%s (%s path): %s; required acc * %d + digit' % (name, arm, why, radix), inputs='every input longer than one symbol')
         run.floor('R-CONV', 'accumulation loops of %s' % name, n, 2)
     for name, radix, zero in (('number_to_bit', 2, 0), ('number_to_dna', 4, 'A')):
@@ -144,6 +156,7 @@ def r_conv(ctx):
             n += 1
             ok_div = ok_front = False
             why = ''
+            wit_div = wit_front = False
             for p, k in ctx.body_paths(f, nd.id):
                 if k != 'back':
                     continue
@@ -152,11 +165,14 @@ def r_conv(ctx):
                     if e.kind == 'def' and e.term[0] == 'item' and e.term[2] == 0:
                         c = e.term[1]
                         if arm == 'string' and call_name(c) and call_name(c).endswith('.calculus_division'):
-                            ok_div = _radix_ok(call_arg(c, 1, 'base'), radix)
-                            why = 'divides by %s' % show(call_arg(c, 1, 'base'))
+                            bs = call_arg(c, 1, 'base')
+                            ok_div = _radix_ok(bs, radix)
+                            why = 'divides by %s' % show(bs)
+                            wit_div = bs is not None and bs[0] == 'c' and not ok_div
                         if arm == 'integer' and is_call(c, 'builtins.divmod') and len(c[2]) == 2:
                             ok_div = _radix_ok(c[2][1], radix)
                             why = 'divides by %s' % show(c[2][1])
+                            wit_div = c[2][1][0] == 'c' and not ok_div
                     if e.kind == 'insert':
                         ok_front = e.term[0] == ('c', 0)
                         digit = e.term[1]
@@ -164,9 +180,12 @@ def r_conv(ctx):
                             ok_front = ok_front and digit[0] == 'sub' and digit[1] == ('c', ALPHA)
                     if e.kind == 'append':
                         why = 'digit appended at the end'
-            run.check(ok_div, 'R-CONV', f, '%s:divide-by-%d' % (arm, radix), nd.lineno, 'repeated division by %d' % radix,
+                        # appended digits are fine when the list is reversed afterwards
+                        src_txt = ast.unparse(f.node)
+                        wit_front = not ('.reverse()' in src_txt or '[::-1]' in src_txt or 'reversed(' in src_txt)
+            _tri(run, ok_div, wit_div, 'R-CONV', f, '%s:divide-by-%d' % (arm, radix), nd.lineno, 'repeated division by %d' % radix,
                       '%s (%s path) %s; radix is %d' % (name, arm, why, radix), inputs='every number >= the radix')
-            run.check(ok_front, 'R-CONV', f, '%s:digit-at-front' % arm, nd.lineno, 'each digit is inserted at the front',
+            _tri(run, ok_front, wit_front, 'R-CONV', f, '%s:digit-at-front' % arm, nd.lineno, 'each digit is inserted at the front',
                       '%s (%s path) does not insert each digit at position 0 (%s): the rendering is not big-endian' % (name, arm, why),
                       inputs='every number with two or more digits')
         run.floor('R-CONV', 'division loops of %s' % name, n, 2)
@@ -179,10 +198,26 @@ def r_conv(ctx):
         width = ('v', 'bit_length' if name == 'number_to_bit' else 'dna_length', 'P')
         rets = list(f.stmts(ast.Return))
         okpad = False
+        wit_pad = False
         for r in rets:
             t = f.term(r.stmt.value, r)
             if t[0] == 'bin' and t[1] == '+':
                 pad, body = t[2], t[3]
+                # recognised deviations: pad on the right, wrong pad symbol, wrong width
+                def _padlike(x):
+                    return x[0] == 'bin' and x[1] == '*' and any(y[0] == 'c' or y == ('list', ('c', 0)) for y in (x[2], x[3]))
+                if not _padlike(pad) and _padlike(body):
+                    wit_pad = True
+                if _padlike(pad):
+                    for a, b in ((pad[2], pad[3]), (pad[3], pad[2])):
+                        if (a[0] == 'c' and isinstance(a[1], str) and a != ('c', 'A')) or \
+                                (a[0] == 'list' and a != ('list', ('c', 0))):
+                            wit_pad = True
+                        ba = affine(b)
+                        lens = [x for x in (ba or {}) if x != 1 and is_call(x, 'builtins.len')]
+                        if (a == ('c', 'A') or a == ('list', ('c', 0))) and ba is not None and lens and \
+                                not aff_eq(ba, {width: 1, lens[0]: -1}) and width in ba:
+                            wit_pad = True
                 if pad[0] == 'bin' and pad[1] == '*':
                     for a, b in ((pad[2], pad[3]), (pad[3], pad[2])):
                         sym_ok = a == ('list', ('c', 0)) if name == 'number_to_bit' else a == ('c', 'A')
@@ -190,7 +225,7 @@ def r_conv(ctx):
                         lens = [x for x in (ba or {}) if x != 1 and is_call(x, 'builtins.len')]
                         if sym_ok and ba is not None and lens and aff_eq(ba, {width: 1, lens[0]: -1}):
                             okpad = True
-        run.check(okpad, 'R-CONV', f, 'left-pad-to-width', rets[-1].lineno if rets else f.node.lineno,
+        _tri(run, okpad, wit_pad and not okpad, 'R-CONV', f, 'left-pad-to-width', rets[-1].lineno if rets else f.node.lineno,
                   'left pad with the zero symbol up to the requested width',
                   '%s does not return <zero symbol> * (width - len) + digits: fixed-width rendering is wrong' % name,
                   inputs='numbers with fewer digits than the width')
